@@ -15,6 +15,10 @@ PBys == {"index", "cond", "cat"}
 Types == {<<TRUE, TRUE>>, <<TRUE, FALSE>>, <<FALSE, TRUE>>}
 
 FixedS(nm) == {Cfg("fixed", FALSE, FALSE, "none", 1, 1, 1, 1, "index", "index", TRUE, nm, 9, 9)}
+\* eval_fixed on a RESAMPLED stack: the data handed to eval_fixed are bootstrap_sample_rdm(data, byR) (= subsample
+\* with repeated values), so RDMs -- and values of the library-managed 'index' descriptor -- occur several times;
+\* descriptors with one member per group only (the table has one column per RDM of the stack)
+FixedBootS(nm) == {Cfg("fixed", TRUE, FALSE, "none", 1, 1, 1, 1, byR, "index", TRUE, nm, 9, 9) : byR \in {"index", "subj"}}
 \* eval_bootstrap (both axes) / eval_bootstrap_rdm / eval_bootstrap_pattern
 BootS(n, nm, types, rbys, pbys) ==
   {Cfg("boot", bt[1], bt[2], "none", 1, n, 1, 1, byR, IF bt[2] THEN byP ELSE "index", bnc, nm, 9, 9) :
@@ -36,14 +40,14 @@ TestsetS(n, nm, types, rbys, pbys) ==
 
 (* ---- quick tier ---- *)
 \* NR = 3, NC = 4, trimmed draws: every routine, unique and grouping descriptors, N = 2 for the plain bootstraps
-QuickA == FixedS(3)
+QuickA == FixedS(3) \cup FixedBootS(3)
           \cup BootS(2, 3, Types, RBys, {"index", "cond"})
           \cup BootCvS(1, 2, 2, 1, 3, 1, 9, Types, {"subj", "grp"}, {"cond"})
           \cup DualS(1, 2, 2, 1, 2, 0, 9, {"index", "grp"}, {"index"})
           \cup DualRandS(1, 2, 1, 0, 3, 1, 9, Types, {"index", "grp"}, {"cond"})
 \* NR = 3, NC = 3, every draw outcome (27 x 27) of the first sample, second sample identity / all-first
 \* (eval_bootstrap* cannot run with N = 1)
-QuickB == BootS(2, 3, {<<TRUE, TRUE>>}, {"subj"}, {"cond"})
+QuickB == BootS(2, 3, {<<TRUE, TRUE>>}, {"subj"}, {"cond"}) \cup FixedBootS(3)
 \* NR = 3, NC = 6, trimmed draws: condition groups ('cat': 3 groups of 2), folds over conditions
 QuickC == BootS(2, 3, {<<TRUE, TRUE>>, <<FALSE, TRUE>>}, {"grp"}, {"cat"})
           \cup BootCvS(1, 1, 1, 2, 3, 9, 1, {<<TRUE, TRUE>>, <<FALSE, TRUE>>}, {"index"}, {"index", "cat"})
@@ -53,7 +57,7 @@ QuickC == BootS(2, 3, {<<TRUE, TRUE>>, <<FALSE, TRUE>>}, {"grp"}, {"cat"})
 
 \* NR = 5, NC = 4, trimmed draws: MORE RDM groups than condition groups (5 > 4; 'grp': 3 < 4; 'cat': 2), so that
 \* the smaller factor in DofRule is the condition axis; every routine that resamples both axes
-QuickD == BootS(2, 3, {<<TRUE, TRUE>>}, {"subj", "grp"}, {"cond", "cat"})
+QuickD == FixedBootS(2) \cup BootS(2, 3, {<<TRUE, TRUE>>}, {"subj", "grp"}, {"cond", "cat"})
           \cup BootCvS(1, 2, 2, 1, 3, 0, 9, {<<TRUE, TRUE>>}, {"subj", "grp"}, {"cond"})
           \cup DualS(1, 1, 2, 1, 2, 0, 9, {"subj", "grp"}, {"cond"})
           \cup DualRandS(1, 2, 1, 0, 3, 0, 9, {<<TRUE, TRUE>>}, {"subj", "grp"}, {"cond"})
